@@ -180,6 +180,103 @@ theorem tick_task_iff (valid : Crontab → Bool) (cfg : Nat → List Binding)
     simp only [he, if_true, List.mem_map, List.mem_filter, beq_iff_eq]
     exact ⟨b, ⟨hb, hc⟩, rfl⟩
 
+/-- **C11.2 (one event)** One firing of a crontab is one event through `ScheduleCh`: whatever the cron
+registrations are, the tasks the operator's callback creates for the event `c` are a permutation of exactly
+one task per enabled schedule binding whose crontab is `c` (the string the job sent — compared with `==`,
+nothing is normalised). -/
+theorem event_one_task_per_enabled_binding (valid : Crontab → Bool) (cfg : Nat → List Binding)
+    (hooks : List Nat) (ord : Links → Links) (hord : ∀ l, (ord l).Perm l)
+    (hnd : ∀ h, ((cfg h).map (·.id)).Nodup)
+    (huniq : ∀ h h' b b', b ∈ cfg h → b' ∈ cfg h' → b.id = b'.id → h = h')
+    (ops : List SysOp) (c : Crontab) :
+    (scheduleTasks ord hooks (sysRun valid cfg ops).links c).Perm
+      (Spec.wantTasks cfg hooks (Spec.enabledAfter ops) c) := by
+  obtain ⟨_, hl⟩ := sysGood_run valid cfg hnd huniq ops
+  refine (scheduleTasks_perm ord hord hooks _ c).trans ?_
+  unfold Spec.wantTasks
+  apply perm_flatMap_left
+  intro h _
+  rw [hl h]
+  cases he : Spec.enabledAfter ops h with
+  | true =>
+    simp only [if_true, List.filter_map, List.map_map]
+    exact List.Perm.refl _
+  | false => simp
+
+/-- **C11.2 (crontabs due at the same instant)** When several crontabs `cs` are due at one wall-clock
+instant — different spellings of one schedule (`7 3 1 1 *`, `7  3 1 1 *`, `0 7 3 1 JAN ?` are three
+crontabs for the manager), or schedules that coincide — all their live registrations fire; the tasks of
+that instant are a permutation of exactly one task per enabled binding per listed crontab it has: each
+binding is triggered by its own spelling only, never by a sibling spelling. -/
+theorem simultaneous_ticks_one_task_per_enabled_binding (valid : Crontab → Bool) (cfg : Nat → List Binding)
+    (hooks : List Nat) (ord : Links → Links) (hord : ∀ l, (ord l).Perm l)
+    (hnd : ∀ h, ((cfg h).map (·.id)).Nodup)
+    (huniq : ∀ h h' b b', b ∈ cfg h → b' ∈ cfg h' → b.id = b'.id → h = h')
+    (ops : List SysOp) (cs : List Crontab) (hv : ∀ c ∈ cs, valid c = true) :
+    (cs.flatMap (tickTasks ord hooks (sysRun valid cfg ops))).Perm
+      (cs.flatMap (Spec.wantTasks cfg hooks (Spec.enabledAfter ops))) :=
+  perm_flatMap_left cs _ _
+    (fun c hc => tick_one_task_per_enabled_binding valid cfg hooks ord hord hnd huniq ops c (hv c hc))
+
+/-- … so a task is produced at that instant iff it is the task of an enabled binding whose crontab is one
+of the crontabs due. -/
+theorem simultaneous_ticks_task_iff (valid : Crontab → Bool) (cfg : Nat → List Binding)
+    (hooks : List Nat) (ord : Links → Links) (hord : ∀ l, (ord l).Perm l)
+    (hnd : ∀ h, ((cfg h).map (·.id)).Nodup)
+    (huniq : ∀ h h' b b', b ∈ cfg h → b' ∈ cfg h' → b.id = b'.id → h = h')
+    (ops : List SysOp) (cs : List Crontab) (hv : ∀ c ∈ cs, valid c = true) (t : Task) :
+    t ∈ cs.flatMap (tickTasks ord hooks (sysRun valid cfg ops)) ↔
+      ∃ h ∈ hooks, Spec.enabledAfter ops h = true ∧ ∃ b ∈ cfg h, b.crontab ∈ cs ∧ t = Spec.bindingTask h b := by
+  simp only [List.mem_flatMap]
+  constructor
+  · rintro ⟨c, hc, ht⟩
+    obtain ⟨h, hh, he, b, hb, hbc, rfl⟩ :=
+      (tick_task_iff valid cfg hooks ord hord hnd huniq ops c (hv c hc) t).1 ht
+    exact ⟨h, hh, he, b, hb, hbc ▸ hc, rfl⟩
+  · rintro ⟨h, hh, he, b, hb, hbc, rfl⟩
+    exact ⟨b.crontab, hbc,
+      (tick_task_iff valid cfg hooks ord hord hnd huniq ops b.crontab (hv _ hbc) _).2 ⟨h, hh, he, b, hb, rfl, rfl⟩⟩
+
+/-- Non-vacuity: crontabs 1 and 3 are two spellings of one schedule used by two hooks, crontab 2 is
+another schedule; at the instant 1 and 3 are due each binding gets its one task from its own spelling. -/
+example :
+    let cfg : Nat → List Binding := fun h =>
+      if h = 0 then [⟨100, 1, 3, [], false, 7, 0⟩, ⟨101, 2, 2, [], true, 8, 0⟩]
+      else if h = 1 then [⟨102, 4, 1, [5], false, 7, 6⟩] else []
+    let s := sysRun (fun _ => true) cfg [.enable 0, .enable 1]
+    firing s.sm = [3, 2, 1] ∧
+    [1, 3].flatMap (tickTasks id [0, 1] s) =
+      [Spec.bindingTask 1 ⟨102, 4, 1, [5], false, 7, 6⟩, Spec.bindingTask 0 ⟨100, 1, 3, [], false, 7, 0⟩] := by
+  decide
+
+/-- `EnableScheduleBindings` with the link's crontab passed through some rewriting `norm` (the manager
+still being given the crontab as configured) — NOT the code; the variant the next theorem is about. -/
+def enableLoopNorm (norm : Crontab → Crontab) (valid : Crontab → Bool) (sm : State) (l : Links) :
+    List Binding → State × Links
+  | [] => (sm, l)
+  | b :: bs => enableLoopNorm norm valid (add valid sm b.crontab b.id)
+      (linkPut l b.id { b.link with crontab := norm b.crontab }) bs
+
+/-- Witness: the link must hold the crontab exactly as it is handed to the manager. For EVERY rewriting
+`norm` and every crontab it changes (say, one written with two blanks, "normalised" to one), a hook whose
+only binding has that crontab is registered, its crontab fires, and the firing produces no task — and
+with `norm = id` the variant is the code (`enableLoop`). -/
+theorem normalised_link_witness (norm : Crontab → Crontab) (c : Crontab) (hne : norm c ≠ c) :
+    let b : Binding := ⟨100, 1, c, [], false, 7, 0⟩
+    let r := enableLoopNorm norm (fun _ => true) {} [] [b]
+    firing r.1 = [c] ∧ scheduleTasks id [0] (fun _ => r.2) c = [] ∧
+    Spec.wantTasks (fun _ => [b]) [0] (fun _ => true) c = [Spec.bindingTask 0 b] := by
+  refine ⟨?_, ?_, ?_⟩
+  · simp [enableLoopNorm, add, firing, Cron.addFunc, setInsert]
+  · simp [enableLoopNorm, scheduleTasks, canHandle, linkPut, Binding.link, hne]
+  · simp [Spec.wantTasks]
+
+theorem enableLoopNorm_id (valid : Crontab → Bool) (sm : State) (l : Links) (bs : List Binding) :
+    enableLoopNorm id valid sm l bs = enableLoop valid sm l bs := by
+  induction bs generalizing sm l with
+  | nil => rfl
+  | cons b bs ih => simp only [enableLoopNorm, enableLoop, id]; exact ih _ _
+
 /-- **C11.2 (placement)** Every task is appended to the queue named by its binding's queue, in order,
 and to no other queue. -/
 theorem placed_in_binding_queue (queues : List (Nat × List Task)) (ts : List Task) :
@@ -262,6 +359,68 @@ example :
     firing s.sm = [1, 2] ∧
     tickTasks List.reverse [0, 1, 2] s 1 =
       [Spec.bindingTask 0 ⟨100, 1, 1, [5], true, 7, 0⟩, Spec.bindingTask 2 ⟨103, 4, 1, [6], false, 9, 2⟩] := by
+  decide
+
+/-- No two live cron registrations send the same crontab string, after any enable/disable history. -/
+theorem firing_nodup (valid : Crontab → Bool) (cfg : Nat → List Binding)
+    (hnd : ∀ h, ((cfg h).map (·.id)).Nodup)
+    (huniq : ∀ h h' b b', b ∈ cfg h → b' ∈ cfg h' → b.id = b'.id → h = h')
+    (ops : List SysOp) : (firing (sysRun valid cfg ops).sm).Nodup := by
+  obtain ⟨⟨r, gr, _⟩, _⟩ := sysGood_run valid cfg hnd huniq ops
+  rw [List.nodup_iff_count]
+  intro c
+  have h := liveCount_of_good valid _ _ gr c
+  have h2 : List.count c (firing (sysRun valid cfg ops).sm) = liveCount (sysRun valid cfg ops).sm c := by
+    simp [liveCount, firing, List.count_eq_length_filter, List.filter_map, Function.comp_def]
+  rw [h2, h]; unfold Spec.wantLive; split <;> omega
+
+/-- **C11.2 (wall clock, any spelling)** Let `sched` be any reading of crontab strings as schedules (the
+cron parser's). At an instant at which schedule `σ` is due every live registration whose string parses to
+`σ` fires. The tasks of that instant are — over the pairwise distinct crontab strings `due` that spell `σ`
+and have an enabled binding, each fired exactly once — a permutation of one task per enabled binding with
+that string: every enabled binding whose crontab means `σ`, however it is spelled, gets exactly one task,
+from the firing of its own spelling. -/
+theorem wallclock_tick_one_task_per_enabled_binding (sched : Crontab → Nat) (valid : Crontab → Bool)
+    (cfg : Nat → List Binding)
+    (hooks : List Nat) (ord : Links → Links) (hord : ∀ l, (ord l).Perm l)
+    (hnd : ∀ h, ((cfg h).map (·.id)).Nodup)
+    (huniq : ∀ h h' b b', b ∈ cfg h → b' ∈ cfg h' → b.id = b'.id → h = h')
+    (hv : ∀ h, ∀ b ∈ cfg h, valid b.crontab = true)
+    (ops : List SysOp) (σ : Nat) :
+    ∃ due : List Crontab, due.Nodup ∧
+      (∀ c, c ∈ due ↔ sched c = σ ∧ ∃ h, Spec.enabledAfter ops h = true ∧ ∃ b ∈ cfg h, b.crontab = c) ∧
+      (wallTickTasks sched ord hooks (sysRun valid cfg ops) σ).Perm
+        (due.flatMap (Spec.wantTasks cfg hooks (Spec.enabledAfter ops))) := by
+  refine ⟨(firing (sysRun valid cfg ops).sm).filter (fun c' => sched c' == σ), ?_, ?_, ?_⟩
+  · exact (firing_nodup valid cfg hnd huniq ops).filter _
+  · intro c
+    have hl := live_iff_enabled_binding valid cfg hnd huniq ops c
+    have hmem : c ∈ firing (sysRun valid cfg ops).sm ↔ liveCount (sysRun valid cfg ops).sm c ≠ 0 := by
+      have h2 : List.count c (firing (sysRun valid cfg ops).sm) = liveCount (sysRun valid cfg ops).sm c := by
+        simp [liveCount, firing, List.count_eq_length_filter, List.filter_map, Function.comp_def]
+      rw [← h2]; exact (List.count_pos_iff.symm).trans (Nat.pos_iff_ne_zero)
+    simp only [List.mem_filter, beq_iff_eq]
+    constructor
+    · rintro ⟨hm, hs⟩
+      refine ⟨hs, ?_⟩
+      apply Classical.byContradiction; intro hno
+      exact (hmem.1 hm) (hl.2 hno)
+    · rintro ⟨hs, hex⟩
+      refine ⟨hmem.2 ?_, hs⟩
+      obtain ⟨h, he, b, hb, rfl⟩ := hex
+      rw [hl.1 (hv h b hb) ⟨h, he, b, hb, rfl⟩]; omega
+  · unfold wallTickTasks
+    exact perm_flatMap_left _ _ _
+      (fun c _ => event_one_task_per_enabled_binding valid cfg hooks ord hord hnd huniq ops c)
+
+/-- Non-vacuity: strings 1 and 3 spell schedule 0, string 2 spells schedule 1. -/
+example :
+    let cfg : Nat → List Binding := fun h =>
+      if h = 0 then [⟨100, 1, 3, [], false, 7, 0⟩, ⟨101, 2, 2, [], true, 8, 0⟩]
+      else if h = 1 then [⟨102, 4, 1, [5], false, 7, 6⟩] else []
+    let s := sysRun (fun _ => true) cfg [.enable 0, .enable 1]
+    wallTickTasks (fun c => if c = 2 then 1 else 0) id [0, 1] s 0 =
+      [Spec.bindingTask 0 ⟨100, 1, 3, [], false, 7, 0⟩, Spec.bindingTask 1 ⟨102, 4, 1, [5], false, 7, 6⟩] := by
   decide
 
 /-- Witness for the uniqueness hypothesis (ids are generated uuids in the code): with one id shared by
